@@ -91,6 +91,16 @@ def gen_scenario(rng):
         cfg["t2"]["ranking"] = {"alpha_sim": 0.3, "beta_recency": 1.0, "gamma_importance": 0.0}
         cfg["t2"]["exact_recent_days"] = 30
         cfg["t2"].pop("tiers", None)
+    if rng.random() < 0.15:
+        # cluster-tie class: old memories without an explicit cluster id and with identical texts (equal scores), so that the
+        # cluster tier has to break ties at its top-m boundary
+        base_txt = [" ".join(rng.sample(["hello", "world", "moon", "river", "cat", "tree"], 2)) for _ in range(2)]
+        world["eps"] = [{"id": f"ct{j:02d}", "owner": rng.choice(["A", "world"]), "text": base_txt[j % 2], "ts": "2021-03-0%dT00:00:00Z" % (1 + j % 9), "vec": "enc",
+                         "aux": {"importance": 0.5}} for j in range(rng.randint(6, 12))]
+        cfg["t2"].update({"tiers": rng.choice([["cluster_semantic"], ["exact_semantic", "cluster_semantic"], ["cluster_semantic", "archive"]]), "clusters_top_m": rng.choice([1, 2, 3]),
+                          "k_retrieval": rng.choice([2, 4, 8]), "sim_threshold": -1.0, "owner_scope": "any", "exact_recent_days": 30})
+        if not cfg["t3"].get("dialogue"):
+            cfg["t3"]["dialogue"] = {"template": "{snippets_text}; {labels} -> {intent}", "include_top_k_snippets": 3}
     if rng.random() < 0.25:
         # the same request repeated (same agent, text, logical time) with the stage caches on: the hit paths run
         for t in turns[1:]:
